@@ -20,8 +20,9 @@ MODEL = "model_of"
 RULE = ("every sequence over the 8 state-changing operations {set_disabled(T/F), "
         "set_run_validators(T/F/non-bool), enter disabled(), exit normally, exit by exception} in "
         "which an exit only occurs while a context is open (prefixes of well-nested programs), "
-        "from both initial switch values, up to length 4 (quick) / 6 (thorough), plus seeded random "
-        "sequences up to length 14; after EVERY operation the harness reads get_disabled(), "
+        "from both initial switch values, up to length 4 (quick) / 5 (thorough), plus 80 hand-built sequences "
+        "with managers created ahead of use and calls of a function decorated with @validators.disabled(), plus "
+        "300 (quick) / 12000 (thorough) seeded random sequences up to length 14 over the larger alphabet; after EVERY operation the harness reads get_disabled(), "
         "get_run_validators(), constructs an attr.s and a define instance, assigns to a field "
         "hooked with setters.validate / [convert, validate] / define's default, and calls "
         "attr.validate(), and replays a fixed set of footprint scenarios (hooks after validate in a pipe, "
@@ -467,11 +468,18 @@ VAL_ONLY = (DFv, DFvl, ASvs, DFd, DFfalsy, ASfalsy)
 NONBOOL_POOL = [1, 0, None, "yes", 1.0]
 
 
+_FP_DUE = [True]
+_FP_LAST = [None]
+
+
 def _probe():
     """Returns dict of observations + list of internal disagreements."""
     dis = []
     gd = validators.get_disabled()
     gr = _config.get_run_validators()
+    # the footprint scenarios depend on the switch value only: replay them when it changed
+    _FP_DUE[0] = _FP_LAST[0] is not gr
+    _FP_LAST[0] = gr
     if attr.get_run_validators() is not gr:
         dis.append("attr.get_run_validators differs from _config.get_run_validators")
 
@@ -506,7 +514,7 @@ def _probe():
         dis.append("setters.validate-only hook ran a converter")
     if any(c for _, c in val):
         dis.append("attr.validate ran a converter")
-    for got, want in zip(_fp_scenarios(), _FP_REFERENCE):
+    for got, want in zip(_fp_scenarios() if _FP_DUE[0] else (), _FP_REFERENCE):
         if got != want:
             dis.append("switch state (get_run_validators()=%r) changes something other than validator calls: "
                        "%s: trace/state %r, with validators enabled %r" % (gr, got[0], got[1:], want[1:]))
@@ -521,6 +529,7 @@ def _probe():
 def real_run(init, ops, probes=None):
     """ops: list of tuples ('sd', bool) | ('sr', value) | ('enter',) | ('exit', 'n'|'e')."""
     _config._run_validators = init
+    _FP_LAST[0] = None
     open_cms = []
     pending = []          # managers created but not entered yet
     seen = []
@@ -684,7 +693,7 @@ _internal = []
 
 def generate(tier, seed):
     rng = random.Random(seed)
-    maxlen = 4 if tier == "quick" else 6
+    maxlen = 4 if tier == "quick" else 5
     cases = []
     _internal.clear()
     for init in (True, False):
@@ -697,7 +706,7 @@ def generate(tier, seed):
             c, dis = mk_case(init, list(ops))
             cases.append(c)
             _internal.extend((c.inp, d) for d in dis)
-    n_random = 300 if tier == "quick" else 3000
+    n_random = 300 if tier == "quick" else 12000
     for _ in range(n_random):
         n = rng.randint(maxlen + 1, 14)
         ops, depth = [], 0
